@@ -468,13 +468,24 @@ impl PredicatePushdown {
             }
 
             LogicalPlan::Limit(node) => {
-                // Push through limit
-                let input = self.pushdown(&node.input, predicates)?;
-                Ok(LogicalPlan::Limit(crate::planner::LimitNode {
+                // A filter does not commute with LIMIT/OFFSET: filtering
+                // first changes which rows the limit keeps. The predicates
+                // stay above; only the input is optimized on its own.
+                let input = self.pushdown(&node.input, vec![])?;
+                let limit = LogicalPlan::Limit(crate::planner::LimitNode {
                     input: Arc::new(input),
                     skip: node.skip,
                     fetch: node.fetch,
-                }))
+                });
+                if predicates.is_empty() {
+                    Ok(limit)
+                } else {
+                    let combined = self.combine_predicates(predicates);
+                    Ok(LogicalPlan::Filter(FilterNode {
+                        input: Arc::new(limit),
+                        predicate: combined,
+                    }))
+                }
             }
 
             LogicalPlan::Distinct(node) => {
